@@ -137,6 +137,44 @@ def bpseq_item(out, item, rep):
         emit(out, iid, "without_isolated@" + solver_name, rep, str(bp.without_isolated()), has_pairs)
 
 
+def tool_item(out, item, rep, tmpdir):
+    """One of the package's command-line tools run in-process: stdout plus every file it wrote."""
+    import importlib
+    import shutil
+
+    outdir = os.path.join(tmpdir, "tool-out")
+    shutil.rmtree(outdir, ignore_errors=True)
+    os.makedirs(outdir)
+    argv = [a.replace("{out}", outdir) for a in item["argv"]]
+    module = importlib.import_module(item["module"])
+    buf, err = io.StringIO(), io.StringIO()
+    old = sys.argv
+    sys.argv = argv
+    status = "ok"
+    try:
+        with contextlib.redirect_stdout(buf), contextlib.redirect_stderr(err):
+            module.main()
+    except SystemExit as e:
+        status = "exit %s" % (e.code,)
+    except Exception as e:  # noqa: BLE001
+        status = "raised %s" % type(e).__name__
+    finally:
+        sys.argv = old
+    text = buf.getvalue().replace(outdir, "<out>")
+    emit(out, item["id"], "tool_stdout", rep, status + "\n" + text, len(text) > 0)
+    files = []
+    for root, _, names in sorted(os.walk(outdir)):
+        for n in sorted(names):
+            files.append(os.path.join(root, n))
+    blob = []
+    for f in files:
+        with open(f, "rb") as fh:
+            data = fh.read()
+        blob.append(os.path.relpath(f, outdir).encode() + b"\n" + data.replace(outdir.encode(), b"<out>") + b"\n")
+    emit(out, item["id"], "tool_files", rep, b"".join(blob), len(files) > 0)
+    shutil.rmtree(outdir, ignore_errors=True)
+
+
 def main():
     manifest_path, out_path = sys.argv[1], sys.argv[2]
     sys.path.insert(0, os.environ.get("VERIF_REPO_SRC", "/repo/src"))
@@ -171,6 +209,8 @@ def main():
                 try:
                     if item["type"] == "file":
                         file_item(out, item, rep, tmpdir)
+                    elif item["type"] == "tool":
+                        tool_item(out, item, rep, tmpdir)
                     else:
                         bpseq_item(out, item, rep)
                 except Exception as e:  # noqa: BLE001 - an exception is an output too, and must be the same everywhere
